@@ -242,6 +242,8 @@ def generation_writers(run, tier, with_bounded=True):
         if r.get("astr_violations"):
             from vlib.common import CheckerError
             raise CheckerError("A-str assumption of the writers contract fails on %r" % r["astr_violations"][:1])
+        if r.get("skipped"):
+            run.notes.append("bounded writers stand-in skipped: %s" % r["skipped"])
         run.add_bounded("writers region of generate_equations: one physical line per tree in the four per-shape files", "generator.generate_equations (region extracted by structure)",
                         "synthetic label arrays / lists with every text length %d..%d, single, mixed, ascending, descending" % (r["lengths_arrays"][0], r["lengths_arrays"][1]),
                         r["cases"], r["distinct"], len(r["failures"]),
